@@ -1908,9 +1908,17 @@ coap_session_init_token(coap_session_t *session, size_t len,
   session->tx_token--;
 }
 
-void
+COAP_API void
 coap_session_new_token(coap_session_t *session, size_t *len,
                        uint8_t *data) {
+  coap_lock_lock(session->context, return);
+  coap_session_new_token_lkd(session, len, data);
+  coap_lock_unlock(session->context);
+}
+
+void
+coap_session_new_token_lkd(coap_session_t *session, size_t *len,
+                           uint8_t *data) {
   *len = coap_encode_var_safe8(data,
                                sizeof(session->tx_token), ++session->tx_token);
 }
